@@ -1,7 +1,7 @@
 """C14 -- rejection and error location (DESIGN 5.14)."""
 import json
 from framework import *
-import svx_grammar, snippets, svtree, lexcheck
+import svx_grammar, snippets, svtree, lexcheck, pegexec
 
 PARTIAL = ("proved over the regenerated grammar: a byte that no primitive consumes is a barrier for every expression "
            "(C14_barrier) and strict source_text / library_text, which end in many_till(description, eof), never succeed "
@@ -81,6 +81,15 @@ def check(ctx):
     deep = any(not o.ok for o in ctx.obls)
     pool = [(k, s) for k, s in snippets.sv_sources() if "`" not in s]
     base = r.sample(pool, min(len(pool), 25 if (q and not deep) else 300))
+    # rejection in the executable grammar: a stop byte anywhere in an accepted source -- the regenerated grammar, run, must
+    # reject exactly when the real strict parser does (and give the same tree when the byte fell into a comment or string)
+    gtexts = []
+    for k, s in r.sample(pool, min(len(pool), 50 if q else 300)):
+        for _ in range(2):
+            if len(s) < 1500:
+                p = r.randrange(len(s) + 1)
+                gtexts.append((k, s[:p] + r.choice(STOP) + s[p:]))
+    pegexec.correspond(ctx, gtexts, "c14peg", minimum=60)
     base += [("sv", "module m #(parameter P = 1) (input [P-1:0] a, output reg b);\n  always @(posedge a[0]) begin b <= {a[0], 1'b0} == 2'b10; end\n"
                     "  function f; input x; begin f = (x) ? 1 : 0; end endfunction\n  generate if (P) begin : g wire w; end endgenerate\nendmodule\n"),
              ("lib", "library l \"*.v\" -incdir \"a\";\nconfig c; design d; endconfig\n")]
